@@ -93,7 +93,7 @@ pub fn run(tier: Tier, replay: Option<String>) -> i32 {
         let sched = Schedule { steps };
         let Some(ep) = corpus.eps.iter().find(|e| e.label() == j["endpoint"].as_str().unwrap_or("")) else { return 2 };
         let flavor = if j["flavor"] == "tokio" { Flavor::Tokio } else { Flavor::Astd };
-        let s = ep.read_one(&frame);
+        let s = ep.read_only(&frame);
         let a = ep.read_async(flavor, &frame, &sched);
         println!("sync:  {}\n{}: {}", s.short(), flavor.name(), a.short());
         return match same(&s, &a) {
@@ -116,6 +116,30 @@ pub fn run(tier: Tier, replay: Option<String>) -> i32 {
         let step = if is_login { 1 } else { tier.pick(12, 2) };
         for (k, e) in entries.iter().enumerate() {
             if k % step != 0 {
+                // outside the spread: the writer dispatch tables still have one arm per message and flavour
+                if !corpus.skip_write.contains(&e.label()) {
+                    if let Ok(enc) = corpus.encode(e, &[], &forced0) {
+                        if enc.frame.len() <= 70_000 && !ep.read_only(&enc.frame).is_panic() {
+                            c.eval();
+                            c.nontrivial(vcommon::fnv(format!("{}|{}|writers-only", ep.label(), e.name).as_bytes()));
+                            match ep.write_flavors(&enc.frame, &Schedule { steps: vec![(1, 3), (0, 1), (1, 7)] }) {
+                                Ok([a, t, s]) => {
+                                    if a != t || a != s {
+                                        c.fail(&format!("c06:{}/{}:writers-differ", ep.label(), e.name), "sync, tokio and async-std writers emit different bytes", json!({"endpoint": ep.label(), "message": e.name, "frame": vcommon::hex(&enc.frame), "sync": vcommon::hex_short(&a), "tokio": vcommon::hex_short(&t), "astd": vcommon::hex_short(&s)}));
+                                    }
+                                    c.count("writers_compared_outside_the_spread");
+                                }
+                                Err(m) => {
+                                    if m.contains("tokio write") || m.contains("async-std write") {
+                                        c.fail(&format!("c06:{}/{}:async-writer-failed", ep.label(), e.name), &m, json!({"endpoint": ep.label(), "message": e.name, "frame": vcommon::hex(&enc.frame)}));
+                                    } else {
+                                        c.count("writer_failure_left_to_C01");
+                                    }
+                                }
+                            }
+                        }
+                    }
+                }
                 continue;
             }
             let encf = |t: &[u8], fo: &BTreeMap<String, u32>| corpus.encode(e, t, fo);
@@ -137,7 +161,7 @@ pub fn run(tier: Tier, replay: Option<String>) -> i32 {
                 if frame.len() > 70_000 {
                     continue;
                 }
-                let sync = ep.read_one(frame);
+                let sync = ep.read_only(frame);
                 if sync.is_panic() {
                     // totality is C03's subject; nothing to compare against
                     c.count("sync_panic_skipped");
@@ -222,7 +246,7 @@ pub fn run(tier: Tier, replay: Option<String>) -> i32 {
                 }
                 let sched = Schedule { steps: steps.clone() };
                 let flavor = if *tok { Flavor::Tokio } else { Flavor::Astd };
-                let sync = ep.read_one(&enc.frame);
+                let sync = ep.read_only(&enc.frame);
                 if sync.is_panic() {
                     return Ok(());
                 }
